@@ -205,6 +205,45 @@ static void check_median_filter(int order, int kind, int N, vh::Rng& r) {
     }
 }
 
+//medfilt on inputs shorter than, equal to and a little longer than the window (the zero padding then owns part or most of every window)
+static void check_medfilt_short(int order, int len, vh::Rng& r) {
+    vh::begin_case("medfilt_short", "order=%d len=%d", order, len);
+    for (int kind = 0; kind < 3; ++kind) {
+        arr_real xs(len);
+        for (int i = 0; i < len; ++i) {
+            const double g = r.gauss();
+            xs[i] = (kind == 0) ? g : ((kind == 1) ? std::fabs(g) + 0.5 : -std::fabs(g) - 0.5);   //mixed signs, all positive, all negative
+        }
+        arr_real xin = xs;
+        const arr_real m = dl::medfilt(xin, order);
+        vh::Hasher h;
+        h.s("medfilt_short").i(order).i(len).i(kind).u64(hash_arr(xs));
+        vh::count(h.get(), true);
+        vh::obs_add("medfilt_short_inputs");
+        bool ok = (m.size() == len) && bit_equal(xin, xs);
+        int bad = -1;
+        double wantv = 0;
+        const int n1 = order / 2;
+        for (int i = 0; ok && i < len; ++i) {
+            std::vector<double> w(order);
+            for (int k = 0; k < order; ++k) {
+                const int j = i - n1 + k;
+                w[k] = (j >= 0 && j < len) ? xs[j] : 0.0;
+            }
+            wantv = brute_median(w);
+            if (!(m[i] == wantv)) {
+                ok = false;
+                bad = i;
+            }
+        }
+        if (!ok) {
+            vh::violation(vh::fmt("C16/medfilt/%s", order % 2 ? "odd_order" : "even_order"),
+                          vh::fmt("medfilt(x[%d] (%s), %d): output %d = %.17g, median of the zero-padded centred window = %.17g (or wrong length %d / input modified)", len,
+                                  kind == 0 ? "mixed signs" : (kind == 1 ? "all positive" : "all negative"), order, bad, bad >= 0 ? m[bad] : 0.0, wantv, m.size()));
+        }
+    }
+}
+
 //---- correlation references (tie-free data) -----------------------------------------------------------------
 static ld pearson_ref(const arr_real& x, const arr_real& y, ld* kappa) {
     const int n = x.size();
@@ -345,6 +384,16 @@ int main(int argc, char** argv) {
             check_median_filter(order, k, (k < 2) ? (thorough ? 30000 : 2500) : (thorough ? 3000 : 600), r);
         }
     }
+    //medfilt on short inputs: every order 3..64 x every length 1..80
+    for (int order = 3; order <= 64; ++order) {
+        if (!vh::mine(idx++)) {
+            continue;
+        }
+        vh::Rng r = vh::rng_for("mfshort", order);
+        for (int len = 1; len <= 80; ++len) {
+            check_medfilt_short(order, len, r);
+        }
+    }
     vh::sample("MedianFilter/medfilt: orders 3..64 odd and even, streams of 2500/10000 samples in random frames, against a brute-force window median");
     //rank correlation: all permutations of length <= 7
     for (int n = 2; n <= (thorough ? 8 : 7); ++n) {
@@ -402,6 +451,12 @@ int main(int argc, char** argv) {
                 y[i] = muy + rho * a + std::sqrt(1 - rho * rho) * b;
             }
             check_corr(x, y, "gaussian pair", 0);
+            {
+                //correlation coefficients do not depend on the units of either sample: the same pair on independent scales 1e-60..1e60 (squares and cross products stay representable)
+                const double sx = std::pow(10.0, r.uni(-60, 60));
+                const double sy = std::pow(10.0, r.uni(-60, 60));
+                check_corr(x * sx, y * sy, "gaussian pair on independent scales", 0);
+            }
             //shuffled x order must not matter for the pair; a random permutation applied to both
             //strictly monotone non-linear relations: rank coefficients are exactly +-1
             arr_real z(n);
